@@ -277,7 +277,7 @@ func (lb *ListenerBuilder) buildOutboundNetworkFiltersWithWeightedClusters(route
 	}
 
 	for _, route := range routes {
-		service := lb.push.ServiceForHostname(lb.node, host.Name(route.Destination.Host))
+		service := lb.push.ServiceForHostname(lb.node, host.Name(route.GetDestination().GetHost()))
 		if route.Weight > 0 {
 			clusterName := istioroute.GetDestinationCluster(route.Destination, service, port.Port)
 			clusterSpecifier.WeightedClusters.Clusters = append(clusterSpecifier.WeightedClusters.Clusters, &tcp.TcpProxy_WeightedCluster_ClusterWeight{
@@ -292,6 +292,13 @@ func (lb *ListenerBuilder) buildOutboundNetworkFiltersWithWeightedClusters(route
 	// In case of weighted clusters, tunneling config for a subset is ignored,
 	// because it is set on listener, not on a cluster.
 	tunnelingconfig.Apply(tcpProxy, destinationRule, "")
+
+	if len(clusterSpecifier.WeightedClusters.Clusters) == 0 {
+		// No destination carries a positive weight (only possible for a VirtualService that skipped
+		// validation): there is nothing to route to, and an empty cluster list is not valid for Envoy.
+		return lb.buildOutboundNetworkFiltersWithSingleDestination(
+			util.BlackHoleCluster, util.BlackHoleCluster, "", port, destinationRule, tunnelingconfig.Apply, includeMx, nil)
+	}
 
 	// TODO: Need to handle multiple cluster names for Redis
 	clusterName := clusterSpecifier.WeightedClusters.Clusters[0].Name
@@ -367,7 +374,7 @@ func (lb *ListenerBuilder) buildOutboundNetworkFilters(
 	port *model.Port, configMeta config.Meta, includeMx bool,
 ) []*listener.Filter {
 	push, node := lb.push, lb.node
-	service := push.ServiceForHostname(node, host.Name(routes[0].Destination.Host))
+	service := push.ServiceForHostname(node, host.Name(routes[0].GetDestination().GetHost()))
 	var destinationRule *networking.DestinationRule
 	if service != nil {
 		destinationRule = CastDestinationRule(node.SidecarScope.DestinationRule(model.TrafficDirectionOutbound, node, service.Hostname).GetRule())
@@ -377,12 +384,12 @@ func (lb *ListenerBuilder) buildOutboundNetworkFilters(
 		statPrefix := clusterName
 		// If stat name is configured, build the stat prefix from configured pattern.
 		if len(push.Mesh.OutboundClusterStatName) != 0 && service != nil {
-			statPrefix = telemetry.BuildStatPrefix(push.Mesh.OutboundClusterStatName, routes[0].Destination.Host,
-				routes[0].Destination.Subset, port, 0, &service.Attributes)
+			statPrefix = telemetry.BuildStatPrefix(push.Mesh.OutboundClusterStatName, routes[0].GetDestination().GetHost(),
+				routes[0].GetDestination().GetSubset(), port, 0, &service.Attributes)
 		}
 
 		return lb.buildOutboundNetworkFiltersWithSingleDestination(
-			statPrefix, clusterName, routes[0].Destination.Subset, port, destinationRule, tunnelingconfig.Apply, includeMx, nil)
+			statPrefix, clusterName, routes[0].GetDestination().GetSubset(), port, destinationRule, tunnelingconfig.Apply, includeMx, nil)
 	}
 	return lb.buildOutboundNetworkFiltersWithWeightedClusters(routes, port, configMeta, destinationRule, includeMx)
 }
